@@ -117,7 +117,7 @@ def read_all(path, masked=False):
             return (ds.read(), ds.dataset_mask().astype(bool), ds.profile, ds.tags(), ds.descriptions)
 
 
-def pair_geometry(rng, family='dyadic', proc='auto', max_src=40, margin=(0, 3)):
+def pair_geometry(rng, family='dyadic', proc='auto', max_src=40, margin=(0, 3), avoid_aligned_edges=False):
     """
     Random source grid inside a reference grid.  Returns (src Grid, ref Grid).
       family 'dyadic' : unit 1/8 m, pixel sizes multiples of the unit - every float the code computes is exact
@@ -148,6 +148,18 @@ def pair_geometry(rng, family='dyadic', proc='auto', max_src=40, margin=(0, 3)):
     ml, mt = rng.randint(*margin), rng.randint(*margin)
     rx0 = big_origin + rng.randrange(-50, 50) * pr + 3
     rytop = big_origin // 2 + rng.randrange(-50, 50) * pr + 5
+    if avoid_aligned_edges and family != 'dyadic':
+        # decimal geometry carries float noise: where a source pixel edge coincides with a reference pixel edge GDAL's
+        # area weights of the neighbouring pixel are ~1e-10 instead of 0, which changes *validity* when the neighbour is
+        # the only valid contributor (GDAL behaviour, not homonim's).  Value oracles avoid exact edge coincidences there;
+        # the dyadic family (exact floats) covers them.
+        import math
+        g = math.gcd(ps, pr)
+        if g > 1:
+            if sub % g == 0:
+                sub += rng.randrange(1, g)
+            if suby % g == 0:
+                suby += rng.randrange(1, g)
     sx0 = rx0 + ml * pr + sub
     sytop = rytop - mt * pr - suby
     # reference must cover the source plus a right/bottom margin
